@@ -27,6 +27,42 @@ Proof. unfold ext, ext_spec, all_objs. apply NoDup_filter_seq. Qed.
 Lemma NoDup_int t A : NoDup (int t A).
 Proof. unfold int, int_spec, all_attrs. apply NoDup_filter_seq. Qed.
 
+(* ascending duplicate-free listings are fixed by sorting; extents and intents of the spec are such *)
+Lemma sort_nat_sorted l : StronglySorted lt l -> sort_nat l = l.
+Proof.
+  induction 1 as [|a l Hs IH Hall]; [reflexivity|]. simpl. rewrite IH.
+  destruct l as [|b l']; [reflexivity|]. simpl.
+  rewrite Forall_forall in Hall. assert (a < b) by (apply Hall; left; reflexivity).
+  replace (Nat.leb a b) with true by (symmetry; apply Nat.leb_le; lia). reflexivity.
+Qed.
+
+Lemma filter_seq_sorted (p : nat -> bool) n : forall a, StronglySorted lt (filter p (seq a n)).
+Proof.
+  induction n as [|n IH]; intros a; simpl; [constructor|].
+  destruct (p a); [|apply IH]. constructor; [apply IH|].
+  apply Forall_forall. intros x Hx. apply filter_In in Hx. destruct Hx as [Hx _]. apply in_seq in Hx. lia.
+Qed.
+
+Lemma sort_nat_ext t B : sort_nat (ext t B) = ext t B.
+Proof. apply sort_nat_sorted. unfold ext, ext_spec, all_objs. apply filter_seq_sorted. Qed.
+
+Definition canonical (c : concept) : Prop := sort_nat (fst c) = fst c.
+Definition canon_list (l : list concept) : Prop := forall c, In c l -> canonical c.
+
+Lemma same_extent_canon c d : canonical c -> canonical d ->
+  same_extent c d = nat_list_eqb (fst c) (fst d).
+Proof.
+  unfold canonical, same_extent, support. intros Hc Hd. rewrite Hc, Hd.
+  destruct (nat_list_eqb (fst c) (fst d)) eqn:Q; [|apply andb_false_r].
+  apply nat_list_eqb_eq in Q. rewrite Q, Nat.eqb_refl. reflexivity.
+Qed.
+
+Lemma cnth_canon l i : canon_list l -> canonical (cnth l i).
+Proof.
+  intros H. unfold cnth. destruct (nth_in_or_default i l cdefault) as [Hin|E]; [apply H; exact Hin|].
+  rewrite E. reflexivity.
+Qed.
+
 (* AbstractConcept.__le__ is extent inclusion (the support shortcut never changes the answer) *)
 Lemma concept_le_subset c d : NoDup (fst c) -> concept_le c d = subsetb (fst c) (fst d).
 Proof.
@@ -47,6 +83,11 @@ Definition concept_list (t : table) (cs : list concept) : Prop :=
   concepts_of t cs /\ NoDup (map fst cs).
 Definition full_lattice (t : table) (cs : list concept) : Prop :=
   concept_list t cs /\ complete_for t cs.
+
+Lemma concept_list_canon t cs : concept_list t cs -> canon_list cs.
+Proof.
+  intros [Hc _] c Hin. unfold canonical. destruct (Hc c Hin) as [E _]. rewrite E. apply sort_nat_ext.
+Qed.
 
 Section OneLattice.
   Variable t : table.
